@@ -85,6 +85,54 @@ func entityParam(fd *ast.FuncDecl) string {
 	return ""
 }
 
+// helperCallersGuarded: every call `.name(` in the package is preceded, in its function, by an
+// Alive check or a checked core on the calling function's entity parameter (there must be at least
+// one call, and every calling function must take an entity)
+func helperCallersGuarded(p *pkgFiles, name string) bool {
+	calls := 0
+	ok := true
+	for _, f := range p.files {
+		for _, d := range f.Decls {
+			fd, isFn := d.(*ast.FuncDecl)
+			if !isFn || fd.Body == nil {
+				continue
+			}
+			ent := entityParam(fd)
+			isCall := func(n ast.Node) bool {
+				c, is := n.(*ast.CallExpr)
+				if !is {
+					return false
+				}
+				sel, is := c.Fun.(*ast.SelectorExpr)
+				return is && sel.Sel.Name == name
+			}
+			guard := func(n ast.Node) bool {
+				c, is := n.(*ast.CallExpr)
+				if !is || ent == "" {
+					return false
+				}
+				if strings.Contains(src(c), "Alive("+ent+")") {
+					return true
+				}
+				for _, core := range checkedCores {
+					if strings.Contains(src(c.Fun)+"(", core) {
+						return true
+					}
+				}
+				return false
+			}
+			g, has := guardBeforeUse(fd, guard, isCall)
+			if has {
+				calls++
+				if !g {
+					ok = false
+				}
+			}
+		}
+	}
+	return ok && calls > 0
+}
+
 func genAliveGuards(p *pkgFiles, out *strings.Builder) {
 	type row struct {
 		name string
@@ -157,6 +205,13 @@ func genAliveGuards(p *pkgFiles, out *strings.Builder) {
 					})
 					g = forwards
 				}
+			}
+			// an UNEXPORTED helper that reads the index without a check of its own is fine when every
+			// call of it, anywhere in the package, comes after an `Alive` check (or a checked core) of the
+			// entity passed to it, or from a function that never takes an entity from the caller (extracted
+			// tails of checked operations: a refactoring, not a new entry point)
+			if !g && !ast.IsExported(fd.Name.Name) {
+				g = helperCallersGuarded(p, fd.Name.Name)
 			}
 			rows = append(rows, row{file + ":" + recvName(fd.Recv.List[0].Type) + "." + fd.Name.Name, g})
 		}
